@@ -1504,7 +1504,11 @@ fn c14_verdict(idx: usize, e: &Engine, o: &GoOutcome, l: &Limits, p: &Pos, ctxt:
         out::count("C14.depth_limited_searches", 1);
         out::count(&format!("C14.depth_limit.{n}"), 1);
         let reported = o.infos.iter().filter_map(|s| parse_info(s).ok()).map(|i| i.depth).max().unwrap_or(0);
-        if reported < n {
+        if reported < n && (o.watchdog_stop || o.stop_sent || o.late_stop) {
+            // the watchdog had fired and the harness itself ended the search with stop: that it
+            // did not reach its depth says nothing
+            out::inconclusive("C14 depth-limited search ended by the harness's own stop after the watchdog (depth clause not judged)", 1);
+        } else if reported < n {
             out::violation(
                 "C14",
                 &format!("depth-limit-not-reached[{n}]"),
